@@ -20,9 +20,9 @@ backends = [
 
 for mod in backends:
     if mod[1] in sys.modules:
+        # no break: backendgg, backendbellman and backendbulletproofs import their base module, which is listed first
         backend_name = mod[0]
         backend = sys.modules[mod[1]]
-        break
 
 if backend is None and "PYSNARK_BACKEND" in os.environ:
     for mod in backends:
